@@ -155,7 +155,7 @@ func (g *typeGen) inType(depth int) *model.TypeRef {
 	var t *model.TypeRef
 	switch k := g.r.Intn(10); {
 	case k < 5:
-		t = model.Named([]string{"Int", "Float", "String", "Boolean", "ID", "Int64", "Float64"}[g.r.Intn(7)])
+		t = model.Named([]string{"Int", "Float", "String", "Boolean", "ID", "Int64", "Float64", "Time"}[g.r.Intn(8)])
 	case k < 7 && len(g.enums) > 0:
 		t = model.Named(g.enums[g.r.Intn(len(g.enums))])
 	case k < 9 && len(g.inputs) > 0:
